@@ -339,6 +339,26 @@ def trace_validation(ctx, exp, vecs, devs, up, label="trace"):
     return True
 
 
+def binding_logs(ctx):
+    """C02 (anchored in the lazily cached reflection bindings): the reflection strategy answers like the others only if
+    a field's binding, once made or registered, is the one that is used - which LazyBind.tla proves of the discipline
+    `check and bind in one critical section of the field's mutex` (WriteOnce, Isolated).  The access logs of single
+    requests and of sequences of two, recorded at the verification points with the really held locks, must be
+    behaviours of that specification: code that checks, lets go of the mutex and binds later is not."""
+    sub = vlib.Ctx("C12", ctx.tier)
+    sub.scratch = ctx.scratch
+    devs = known_devs()
+    exp, uexec, vecs, races = model(sub, 1, "SeqPlan", devs, with_k=False)
+    up = os.path.join(ctx.scratch, "uni-lazy.json")
+    json.dump(exp, open(up, "w"))
+    trace_validation(sub, exp, vecs, devs, up, label="binding-logs")
+    ctx.traces += sub.traces
+    ctx.extra["binding_logs"] = sub.extra.get("trace_validation")
+    for v in sub.violations:
+        v["from"] = "binding-logs"
+        ctx.violations.append(v)
+
+
 # -------------------------------------------------------------------- checks ----
 
 def model_mutations(ctx):
